@@ -4,4 +4,4 @@ cd /verif/vc && python3 -c "
 import gen,sys
 g=gen.generate('/verif/units/$1/unit.vs')
 open('/var/tmp/spike/$1.rs','w').write(g.out.text())
-" && cd /var/tmp/spike && verus $1.rs --multiple-errors 8 --triggers-mode silent 2>&1 | grep -v "^$" | head -${2:-120}
+" && cd /var/tmp/spike && verus $1.rs --edition 2024 --multiple-errors 8 --triggers-mode silent 2>&1 | grep -v "^$" | head -${2:-120}
